@@ -708,6 +708,7 @@ class ProtoClassMetadata:
         "field_name_by_number",
         "meta_by_field_name",
         "sorted_field_names",
+        "field_name_by_key",
     )
 
     oneof_group_by_field: Dict[str, str]
@@ -744,6 +745,13 @@ class ProtoClassMetadata:
         self.sorted_field_names = tuple(
             by_field_number[number] for number in sorted(by_field_number)
         )
+        # The keys to_dict emits cannot always be converted back with
+        # snake_case (e.g. address_line_1 -> addressLine1 -> address_line1),
+        # so remember which field every emitted key belongs to.
+        self.field_name_by_key = {name: name for name in by_field_name}
+        for name in by_field_name:
+            for case in (camel_case, snake_case):
+                self.field_name_by_key.setdefault(case(name).rstrip("_"), name)
         self.default_gen = self._get_default_gen(cls, fields)
         self.cls_by_field = self._get_cls_by_field(cls, fields)
 
@@ -1642,7 +1650,9 @@ class Message(ABC):
     def _from_dict_init(cls, mapping: Mapping[str, Any]) -> Mapping[str, Any]:
         init_kwargs: Dict[str, Any] = {}
         for key, value in mapping.items():
-            field_name = safe_snake_case(key)
+            field_name = cls._betterproto.field_name_by_key.get(
+                key
+            ) or safe_snake_case(key)
             try:
                 meta = cls._betterproto.meta_by_field_name[field_name]
             except KeyError:
@@ -1917,7 +1927,9 @@ class Message(ABC):
         """
         self._serialized_on_wire = True
         for key in value:
-            field_name = safe_snake_case(key)
+            field_name = self._betterproto.field_name_by_key.get(
+                key
+            ) or safe_snake_case(key)
             meta = self._betterproto.meta_by_field_name.get(field_name)
             if not meta:
                 continue
